@@ -20,7 +20,7 @@ EXPLANATION = (
     "a recycled heap buffer), and a decoded_values buffer that is a view is never passed to free - by the "
     "traces for the loaders and their helpers, by a typestate rule on decoded_ownership for the other "
     "functions of src/reader; (3) the three footer readers reject short files, a wrong trailing magic and "
-    "an oversized footer length (their gating is decided under C18). Decides these clauses, not row "
+    "an oversized footer length (their gating is decided under C18). (4) R45: the functions that hand out a pointer into the bytes being parsed are found as a fixed point (carquet_buffer_reader_peek returns reader->data + pos; thrift_read_binary returns its result; a copying wrapper that hands the input pointer through on one branch joins the set), and at every call of one of them the result is only read, compared or copied - never stored through a member, a pointer or an array element: parsed metadata that pointed into the footer would be valid under mmap / buffer and dangling under stdio, which frees the footer after parsing. Decides these clauses, not row "
     "alignment of batches nor that nothing else invalidates zero-copy data before close.")
 
 PR = "src/reader/page_reader.c"
@@ -78,6 +78,10 @@ def run(ctx):
     ctx.clause("C03.1 page-loader siblings agree (callee/argument provenance/guards/cursor assignments)")
     ctx.clause("C03.2 footer readers agree")
     ctx.clause("C03.3 a DATA_VIEW pointer is never freed")
+    ctx.clause("C03.4 parsed metadata does not point into the footer bytes it was parsed from: the stdio reader frees them after parsing, the mmap and buffer readers keep them")
+    from ..rules import borrowed
+    nb, bnames = borrowed.check(ctx, sorted(set(P.rel(f.file) for f in P.lib_functions() if P.rel(f.file).startswith(("src/thrift/", "src/reader/", "src/metadata/", "src/core/")))))
+    ctx.floor("C03 calls of functions that hand out a pointer into the parser's input", nb, 4)
     _loader_siblings(ctx)
 
     # footers: the three readers are compared through their rejection sets (their guard
